@@ -29,8 +29,8 @@ def run(ctx):
     r, db = ctx.r, ctx.db
     r.explanation = ('(1) result-must-be-used: in NodeManagementService::add_node every construction of (StatusCode::Good, id) is '
                      'dominated by the true edge of the bool returned by AddressSpace::insert. (2) error-before-effect: in add_node, '
-                     'add_reference, delete_node, delete_reference no call that mutates the address space dominates a Bad* return '
-                     '(a Bad result never follows a mutation). Decides these clauses, not the content of the address space.')
+                     'add_reference, delete_node, delete_reference no call that mutates the address space can precede a Bad* return on any path '
+                     '(a Bad result never follows a mutation), except a mutator whose own failure result selects that return. Decides these clauses, not the content of the address space.')
     r.rule_text = 'E2 guard dominance in services::node_management'
     rule = 'insert-result-used'
     bs = db.find_bodies(r'^server::services::node_management::NodeManagementService::add_node$')
@@ -77,7 +77,8 @@ def run(ctx):
         for bi, si, name in bads:
             n += 1
             key = '%s:%s' % (b.path.rsplit('::', 1)[-1], name)
-            before = [m for m in muts if b.dominates(m.bb, bi) and m.bb != bi]
+            # may-precede: a mutating call from which this Bad return can be reached
+            before = [m for m in muts if m.target is not None and bi in b.reachable_blocks(m.target)]
             # the insert whose failure is being reported is the one allowed predecessor
             # a mutator whose own failure result selects this Bad return did not change anything
             Fb = ctx.facts(b)
